@@ -391,6 +391,26 @@ func tempDirOf(epoch int64) string {
 	return fmt.Sprintf("/tmp/tmp-%d", epoch%100003)
 }
 
+// UserCacheDir and UserConfigDir follow the simulated user: absolute directories that differ
+// from epoch to epoch (they need not exist; MkdirAll creates them).
+func UserCacheDir() (string, error) {
+	enter()
+	defer leave()
+	if W == nil {
+		return os.UserCacheDir()
+	}
+	return fmt.Sprintf("/home/sim-%d/.cache", W.Epoch%100003), nil
+}
+
+func UserConfigDir() (string, error) {
+	enter()
+	defer leave()
+	if W == nil {
+		return os.UserConfigDir()
+	}
+	return fmt.Sprintf("/home/sim-%d/.config", W.Epoch%100003), nil
+}
+
 func UserHomeDir() (string, error) {
 	enter()
 	defer leave()
